@@ -571,7 +571,8 @@ def finish(ev, num, tier, qs, known, extra_violations=()):
     for q, bad in k1_fail:
         ok, path, info = lift_and_replay(ev, num, q)
         if ok:
-            violations.append((path, '%s: clauses %s fail on the real build (history of %d calls)' % (q.name, info['clause_failures'][:3], q.meta['k'])))
+            what = ('the sanitizers / checked iterators abort' if num == 8 and not info['clause_failures'] else 'clauses %s fail' % info['clause_failures'][:3])
+            violations.append((path, '%s: %s on the real build (history of %d calls)' % (q.name, what, q.meta['k'])))
             reproduced_conts.add(q.meta['cont'])
         else:
             msg = 'K1 counterexample of %s did not reproduce on the real build (%s)' % (q.name, str(info)[:300])
@@ -584,8 +585,9 @@ def finish(ev, num, tier, qs, known, extra_violations=()):
             continue
         ok, path, info = lift_and_replay(ev, num, q)
         if ok:
+            what = ('the sanitizers / checked iterators abort' if num == 8 and not info['clause_failures'] else 'clauses %s fail' % info['clause_failures'][:3])
             violations.append((path, '%s: from the abstract state of the solver counterexample, rebuilt through the public API, '
-                               'clauses %s fail on the real build' % (q.name, info['clause_failures'][:3])))
+                               '%s on the real build' % (q.name, what)))
             reproduced_conts.add(q.meta['cont'])
     # ---- step 2 (invariant failures): one more call after the failing one, the clauses asserted around the second
     # call (K2x2).  The counterexample starts in an invariant state, so the state builder can reach it.
